@@ -191,7 +191,7 @@ class Ctx:
                 "key": violation.key,
                 "detail": str(violation.detail)[:2000],
                 "recipe": jsonable(recipe),
-                "process_config": PROCESS_MODE["mode"],
+                "process_config": PROCESS_MODE["mode"] + ("+subclasses" if PROCESS_MODE.get("subclasses") else ""),
             }
         )
         return True
@@ -434,17 +434,43 @@ def set_process_mode(mode):
     PROCESS_MODE["mode"] = mode
 
 
-def configure_process(shard):
+def define_plain_subclasses():
+    """What a program with its own module classes does when it is imported: here a plain subclass (same class
+    name, nothing overridden) of every stock module class except Output, kept in an importable module
+    "user_program".  Deriving a class re-registers its type name, so from then on files yield instances of the
+    derived classes.  Cannot be undone within a process (workers are single-task processes)."""
+    if PROCESS_MODE.get("subclasses"):
+        return
+    import sys
+    import types
+
+    from rv.modules import MODULE_CLASSES
+
+    up = types.ModuleType("user_program")
+    sys.modules["user_program"] = up
+    for mtype, cls in sorted(MODULE_CLASSES.items()):
+        if cls.__name__ in ("Output", "Module"):
+            continue
+        sub = type(cls.__name__, (cls,), {"__module__": "user_program", "__qualname__": cls.__name__})
+        setattr(up, cls.__name__, sub)
+    PROCESS_MODE["subclasses"] = True
+
+
+def configure_process(shard, subclasses_ok=True):
     """How the process around the library is configured is not the library's business: every third
     shard runs with the "rv" loggers at DEBUG and a handler that formats every record (what an
     application does while debugging), the others with logging switched off.  Returns a description."""
     import logging
 
+    sub = ""
+    if subclasses_ok and (shard % 8 == 5 or os.environ.get("VERIF_FORCE_SUBCLASSES")):
+        define_plain_subclasses()
+        sub = "; the program has derived a plain subclass from every stock module class"
     if shard % 3 == 1:
         set_process_mode("debug")
-        return "starts with the rv loggers at DEBUG and a formatting handler"
+        return "starts with the rv loggers at DEBUG and a formatting handler" + sub
     set_process_mode("off")
-    return "starts with logging disabled"
+    return "starts with logging disabled" + sub
 
 
 def _worker(args):
@@ -457,9 +483,11 @@ def _worker(args):
     try:
         mod = importlib.import_module(modname)
         reset_globals()
-        ctx.extra["process_config"] = {configure_process(shard): 1}
-        ctx._toggle = True
         owner = importlib.import_module("checks." + prop.lower())
+        # a check that compares the registered classes themselves with the specification opts out of "the
+        # program has derived its own classes" (USER_SUBCLASSES = False)
+        ctx.extra["process_config"] = {configure_process(shard, getattr(owner, "USER_SUBCLASSES", True)): 1}
+        ctx._toggle = True
         if getattr(owner, "NOISE", True):
             # observations a check wants from a process in which nothing has happened yet
             hook = getattr(owner, "before_noise", None)
@@ -573,7 +601,11 @@ def main(argv=None):
         ctx = Ctx(prop, tier, seed, 0, 1, [])
         try:
             reset_globals()
-            set_process_mode(doc.get("process_config") or "off")
+            pc = doc.get("process_config") or "off"
+            if pc.endswith("+subclasses"):
+                define_plain_subclasses()
+                pc = pc[: -len("+subclasses")]
+            set_process_mode(pc)
             mod.replay(ctx, doc)
         except PropertyViolation as v:
             ctx.fail(v, doc.get("recipe"))
